@@ -73,6 +73,8 @@ def to_z(v, want=None):
         if want == "real" and v.sort == "bool":
             t = z3.If(t, z3.RealVal(1), z3.RealVal(0))
         return t
+    if isinstance(v, z3.ExprRef):
+        return v
     if isinstance(v, bool):
         return z3.BoolVal(v) if want != "real" else real_val(v)
     if isinstance(v, int):
